@@ -2,11 +2,12 @@
 # try_seed.sh <patch.diff> <property id> [extra check args]
 # Run a property's check against a scratch COPY of /repo with a seeded change applied (VERIF_REPO),
 # so /repo itself is never touched; the copy and the run's evidence/replays are thrown away.
+HERE=$(cd "$(dirname "$0")/.." && pwd)
 P=$1; ID=$2; shift 2
 W=$(mktemp -d /tmp/seedrepo.XXXXXX)
 rsync -a --exclude .git --exclude __pycache__ /repo/ $W/
 (cd $W && git apply "$P") || { echo "APPLY FAILED"; rm -rf $W; exit 9; }
-cd /verif && VERIF_REPO=$W VERIF_EVIDENCE_DIR=$W/_evid VERIF_REPLAY_DIR=$W/_replays ./check $ID "$@" > /tmp/try_seed_$$.out 2>&1; rc=$?
+cd "$HERE" && VERIF_REPO=$W VERIF_EVIDENCE_DIR=$W/_evid VERIF_REPLAY_DIR=$W/_replays ./check $ID "$@" > /tmp/try_seed_$$.out 2>&1; rc=$?
 grep -c "^VIOLATION" /tmp/try_seed_$$.out | sed 's/^/violations: /'
 grep -E "^(VIOLATION|UNDECIDED|CHECKER|BASELINE)" /tmp/try_seed_$$.out | cut -c1-250 | head -4
 tail -1 /tmp/try_seed_$$.out | cut -c1-300
